@@ -26,13 +26,15 @@ COMPONENTS = {"real": ["smpl_extract.structural (make_safe_name / make_export_na
                        "cdda/image", "akai/image", "roland/s7xx/image", "actions"],
               "stub": ["SimFile / virtual FS input", "output: real files in a sandbox; sys.addaudithook observes and polices open/mkdir/rename/remove"]}
 ASSUMPTIONS = ["the audit hook sees builtins.open, os.open, os.mkdir, os.rename, os.remove, os.rmdir, os.symlink, os.link"]
-EXPECTED_PROBES = ["akai", "roland", "cdda", "unsafe_stored_name", "duplicate_stored_names", "separator_in_name", "dotdot_in_name", "control_char_in_name",
+EXPECTED_PROBES = ["akai", "roland", "cdda", "listed_before_export", "unsafe_stored_name", "duplicate_stored_names", "separator_in_name", "dotdot_in_name", "control_char_in_name",
                    "counter_suffix_written"]
 SHRINK = {"max_attempts": 200, "max_seconds": 60.0, "simple_values": {"policy": ["contiguous"], "block": [4096]}}
 
 
 def gen(rng: random.Random, tier: str, index: int) -> dict:
-    return namesim.gen(rng, cdda_ok=True, pairs=rng.random() < 0.6)
+    sc = namesim.gen(rng, cdda_ok=True, pairs=rng.random() < 0.6)
+    sc["ls_first"] = index % 4 == 2
+    return sc
 
 
 def _all_names(sc: dict):
@@ -58,6 +60,8 @@ def run(sc: dict) -> RunResult:
     obs = namesim.execute(sc, "c06")
     er = obs.er
     res.probes[obs.fmt] += 1
+    if sc.get("ls_first"):
+        res.probes["listed_before_export"] += 1
     names = list(_all_names(sc))
     nontrivial = False
     for n in names:
